@@ -37,7 +37,7 @@ def main():
         runsh = os.path.join(sd, "demo", "run.sh")
         if os.path.exists(runsh):
             # a stand-alone demonstration program with its own run script (written against the seeding worktree /tmp/wt/<P>)
-            owt = f"/tmp/wt/{P}"
+            owt = os.environ.get("SEED_WT_BASE", "/tmp/wt") + f"/{P}"
             sh("git checkout -q -- .", cwd=owt); sh(f"git apply {sd}/patch.diff", cwd=owt)
             rc1, out1 = sh(f"sh {runsh} 2>&1", cwd=os.path.dirname(runsh)); p1 = f1 = 0
             sh("git checkout -q -- .", cwd=owt)
